@@ -107,4 +107,32 @@ def CgnP.runSplit (P : CgnP K V W) (x0 : V) (junk junk' : W) (n m : Nat) : CgnS 
 
 end CgRestart
 
+/-! ## Accelerated proximal gradient called again with the returned `x` -/
+section ApgRestart
+variable {K V : Type} [OfNat K 1] [OfNat K 2] [OfNat K 4] [Neg K] [Sub K] [Add K] [Mul K] [Div K]
+  [SMul K V] [Add V]
+
+/-- `accelerated_proximal_gradient(x, f, g, gamma, n)` then `…(x, f, g, gamma, m)`: the second call
+re-initialises `y = x.copy()`, `t = 1` (`ProxGradP.accInit`); the callback log of both calls. -/
+def ProxGradP.accRunSplit (P : ProxGradP K V) (sqrt : K → K) (x0 junk junk' : V) (n m : Nat) :
+    AccProxGradS K V × List V :=
+  let a := runLog (P.accStep sqrt) (·.x) n (P.accInit x0 junk) []
+  let b := runLog (P.accStep sqrt) (·.x) m (P.accInit a.1.x junk') []
+  (b.1, a.2 ++ b.2)
+
+end ApgRestart
+
+/-! ## Douglas–Rachford primal–dual called again with the returned `x` -/
+section DrRestart
+variable {K V W : Type} [OfNat K 1] [OfNat K 2] [Neg K] [Div K] [SMul K V] [SMul K W] [Add V] [Add W]
+
+/-- `douglas_rachford_pd(x, …, niter=n)` then `…(x, …, niter=m)`: the dual variables `v` are locals
+that start at zero in every call. -/
+def DrP.runSplit (P : DrP K V W) (zeroV : V) (zeroW : Nat → W) (x0 : V) (n m : Nat) : DrS V W :=
+  let a := P.run zeroV n ⟨x0, zeroW, zeroV, []⟩
+  let b := P.run zeroV m ⟨a.x, zeroW, zeroV, []⟩
+  { b with log := a.log ++ b.log }
+
+end DrRestart
+
 end OdlModel.Solvers
